@@ -1,37 +1,45 @@
 (* C06: structure of the writers' loops.  Induction over the snapshot sequence, then over the tree: the cue list is the
-   concatenation, snapshot by snapshot, of cues that all carry that snapshot's interval and together hold that snapshot's
-   text. *)
+   concatenation, snapshot by snapshot, of cues that all carry that snapshot's interval, all hold visible text, and together hold
+   that snapshot's text (outside ruby annotations). *)
 From TT Require Import Model.Doc Gen.StyleTables Model.Isd Model.SigTimes Model.TimeCode Model.IsdFilters Gen.CueTables Model.CueWriter.
-From TT Require Import Model.CueTriggers Spec.IsdSpec Proofs.Common.ElemInd Proofs.C01.Lwsp Proofs.C06.Filters Proofs.C06.Inline.
+From TT Require Import Model.CueTriggers Spec.IsdSpec Proofs.Common.ElemInd Proofs.C01.Lwsp Proofs.C06.Filters Proofs.C06.Inline Proofs.C06.Strip.
 
-Definition cues_at (b : Z) (en : option Z) (cs : list cue) : Prop := Forall (fun c => c_begin c = b /\ c_end c = en) cs.
-Lemma cues_at_app b en x y : cues_at b en x -> cues_at b en y -> cues_at b en (x ++ y).
+(* a cue the writer keeps: its blank test failed, and (hence) its characters are not all white space *)
+Definition nonblank (c : cue) : Prop := only_whitespace (cue_chars c) = false.
+Definition cues_at (blank : cue -> bool) (b : Z) (en : option Z) (cs : list cue) : Prop :=
+  Forall (fun c => c_begin c = b /\ c_end c = en /\ blank c = false /\ nonblank c) cs.
+Lemma cues_at_app blank b en x y : cues_at blank b en x -> cues_at blank b en y -> cues_at blank b en (x ++ y).
 Proof. intros. apply Forall_app. split; assumption. Qed.
 
-(* ---- SubRip: blocks ----------------------------------------------------------------------------------------------- *)
-Fixpoint srt_block_ok (e : elem) : bool :=
+(* ---- blocks ------------------------------------------------------------------------------------------------------- *)
+(* SubRip only (lt = true): no "<" in the text of a paragraph — SubRip has no escape mechanism, and the blank test of the writer,
+   which removes what reads as a tag, is exact only then (Proofs/C06/Strip.v) *)
+Definition lt_free (cs : list elem) : bool := negb (existsb (Z.eqb 60) (flat_map base_text cs)).
+Fixpoint wblock_ok (lt : bool) (e : elem) : bool :=
   match e with
   | Elem a cs =>
       match e_kind a with
-      | KDiv => (fix go (l : list elem) : bool := match l with [] => true | c :: l' => srt_block_ok c && go l' end) cs
-      | KP => forallb inline_ok cs
-      | _ => is_nil (leaves_text e)
+      | KDiv => (fix go (l : list elem) : bool := match l with [] => true | c :: l' => wblock_ok lt c && go l' end) cs
+      | KP => forallb inline_ok cs && (negb lt || lt_free cs)
+      | _ => is_nil (base_text e)
       end
   end.
-Lemma srt_block_ok_node a cs :
-  srt_block_ok (Elem a cs) = match e_kind a with
-                             | KDiv => forallb srt_block_ok cs
-                             | KP => forallb inline_ok cs
-                             | _ => is_nil (leaves_text (Elem a cs))
+Definition srt_block_ok : elem -> bool := wblock_ok true.
+Definition vtt_block_ok : elem -> bool := wblock_ok false.
+Lemma wblock_ok_node lt a cs :
+  wblock_ok lt (Elem a cs) = match e_kind a with
+                             | KDiv => forallb (wblock_ok lt) cs
+                             | KP => forallb inline_ok cs && (negb lt || lt_free cs)
+                             | _ => is_nil (base_text (Elem a cs))
                              end.
-Proof. cbn [srt_block_ok]. destruct (e_kind a); reflexivity. Qed.
+Proof. cbn [wblock_ok]. destruct (e_kind a); reflexivity. Qed.
 
 Lemma srt_block_node fmt b en a cs n :
   srt_block fmt b en (Elem a cs) n =
   match e_kind a with
   | KDiv => srt_blocks fmt b en cs n
   | KP => let c := mkCue (Some (n + 1)) b en (flat_map (srt_inline fmt) cs) None None in
-          (if only_whitespace (cue_text esc_none c) then [] else [c], n + 1)
+          (if srt_blank c then [] else [c], n + 1)
   | _ => ([], n)
   end.
 Proof.
@@ -40,12 +48,12 @@ Proof.
   destruct (srt_block fmt b en c n) as [x n1]. rewrite IH. reflexivity.
 Qed.
 
-Definition block_spec (b : Z) (en : option Z) (ok : bool) (txt : text) (cs : list cue) : Prop :=
-  cues_at b en cs /\ (ok = true -> visc (flat_map cue_chars cs) = visc txt).
+Definition block_spec (blank : cue -> bool) (b : Z) (en : option Z) (ok : bool) (txt : text) (cs : list cue) : Prop :=
+  cues_at blank b en cs /\ (ok = true -> visc (flat_map cue_chars cs) = visc txt).
 
 Lemma srt_blocks_spec fmt b en : forall l,
-  Forall (fun e => forall n cs n', srt_block fmt b en e n = (cs, n') -> block_spec b en (srt_block_ok e) (leaves_text e) cs) l ->
-  forall n cs n', srt_blocks fmt b en l n = (cs, n') -> block_spec b en (forallb srt_block_ok l) (flat_map leaves_text l) cs.
+  Forall (fun e => forall n cs n', srt_block fmt b en e n = (cs, n') -> block_spec srt_blank b en (srt_block_ok e) (base_text e) cs) l ->
+  forall n cs n', srt_blocks fmt b en l n = (cs, n') -> block_spec srt_blank b en (forallb srt_block_ok l) (flat_map base_text l) cs.
 Proof.
   induction l as [|e l IH]; intros Hl n cs n' H.
   - injection H as <- <-. split; [constructor | reflexivity].
@@ -56,104 +64,142 @@ Proof.
     rewrite flat_map_app, !visc_app, (A2 O1), (B2 O2). reflexivity.
 Qed.
 
-Theorem srt_block_spec fmt b en : forall e n cs n',
-  srt_block fmt b en e n = (cs, n') -> block_spec b en (srt_block_ok e) (leaves_text e) cs.
+Lemma visible_60 : visible 60 = true.
+Proof. reflexivity. Qed.
+(* the characters of a paragraph the SubRip writer walks: no "<" when its base text has none *)
+Lemma srt_p_lt_free fmt cs0 : lt_free cs0 = true -> ~ In 60 (chars_of (flat_map (srt_inline fmt) cs0)).
 Proof.
-  induction e as [a cs0 IH] using elem_ind2. intros n cs n' H. rewrite srt_block_node in H. rewrite srt_block_ok_node, leaves_text_node.
+  unfold lt_free. intros H Hin. apply negb_true_iff in H. rewrite chars_of_flat_map in Hin. apply in_flat_map in Hin as (c & Hc & Hin).
+  apply (srt_inline_sub fmt 60 visible_60) in Hin.
+  assert (E : existsb (Z.eqb 60) (flat_map base_text cs0) = true).
+  { apply existsb_exists. exists 60. split; [apply in_flat_map; exists c; split; assumption | reflexivity]. }
+  rewrite E in H. discriminate.
+Qed.
+Lemma not_blank_nonblank (b : bool) c : (only_whitespace (cue_chars c) = true -> b = true) -> b = false -> nonblank c.
+Proof. intros H Hb. unfold nonblank. destruct (only_whitespace (cue_chars c)); [rewrite (H eq_refl) in Hb; discriminate | reflexivity]. Qed.
+
+Theorem srt_block_spec fmt b en : forall e n cs n',
+  srt_block fmt b en e n = (cs, n') -> block_spec srt_blank b en (srt_block_ok e) (base_text e) cs.
+Proof.
+  induction e as [a cs0 IH] using elem_ind2. intros n cs n' H. rewrite srt_block_node in H. unfold srt_block_ok. rewrite wblock_ok_node, base_text_node.
   destruct (e_kind a) eqn:Ek.
-  all: try (injection H as <- <-; split; [constructor|]; intros Hok; apply is_nil_eq in Hok; try rewrite Hok; reflexivity).
+  all: try (injection H as <- <-; split; [constructor|]; intros Hok; try (rewrite base_text_node, Ek in Hok); apply is_nil_eq in Hok; try rewrite Hok; reflexivity).
   - (* div *) exact (srt_blocks_spec fmt b en cs0 IH _ _ _ H).
   - (* p *)
     cbv zeta in H. set (c := mkCue (Some (n + 1)) b en (flat_map (srt_inline fmt) cs0) None None) in H.
-    assert (Hc : forallb inline_ok cs0 = true -> visc (cue_chars c) = visc (flat_map leaves_text cs0)).
+    assert (Hi : items_ok srt_tag_ok (c_items c)) by (apply items_ok_flat_map; intros x _; apply srt_inline_items).
+    assert (Hc : forallb inline_ok cs0 = true -> visc (cue_chars c) = visc (flat_map base_text cs0)).
     { intros Hok. unfold cue_chars, c. cbn [c_items]. rewrite chars_of_flat_map, !visc_flat_map. apply flat_map_ext_in. intros x Hx.
       apply srt_inline_text. rewrite forallb_forall in Hok. apply Hok, Hx. }
-    destruct (only_whitespace (cue_text esc_none c)) eqn:Ew; injection H as <- <-.
-    + split; [constructor|]. intros Hok. rewrite <- (Hc Hok). symmetry. apply (blank_cue esc_none c esc_none_keeps Ew).
-    + split; [constructor; [split; reflexivity | constructor]|]. intros Hok. cbn [flat_map]. rewrite app_nil_r. apply Hc, Hok.
+    destruct (srt_blank c) eqn:Ew; injection H as <- <-.
+    + split; [constructor|]. intros Hok. apply andb_true_iff in Hok as [O1 O2]. cbn [negb orb] in O2. rewrite <- (Hc O1). symmetry.
+      apply only_whitespace_visc. rewrite <- (srt_blank_exact c Hi (srt_p_lt_free fmt cs0 O2)). exact Ew.
+    + split.
+      * constructor; [|constructor]. split; [reflexivity|]. split; [reflexivity|]. split; [exact Ew|].
+        exact (not_blank_nonblank _ c (srt_blank_complete c Hi) Ew).
+      * intros Hok. apply andb_true_iff in Hok as [O1 _]. cbn [flat_map]. rewrite app_nil_r. apply Hc, O1.
 Qed.
 
 (* ---- SubRip: one snapshot ---------------------------------------------------------------------------------------------- *)
 Definition body_children (regions : list elem) : list elem := flat_map (fun r => flat_map echildren (echildren r)) regions.
-Lemma body_children_text rs : regions_shape rs = true -> flat_map leaves_text (body_children rs) = flat_map leaves_text rs.
+Lemma body_children_text rs : regions_shape rs = true -> flat_map base_text (body_children rs) = flat_map base_text rs.
 Proof.
   intros H. unfold body_children. rewrite flat_map_flat_map. apply flat_map_ext_in. intros r Hr.
   unfold regions_shape in H. rewrite forallb_forall in H. specialize (H r Hr). apply andb_true_iff in H as [H1 H2].
-  rewrite (leaves_text_container r H1), flat_map_flat_map. apply flat_map_ext_in. intros b Hb.
-  rewrite forallb_forall in H2. symmetry. apply leaves_text_container, H2, Hb.
+  unfold base_text. rewrite (sel_text_container annot_kind (fun k Hk => Hk) r H1), flat_map_flat_map. apply flat_map_ext_in. intros b Hb.
+  rewrite forallb_forall in H2. symmetry. apply (sel_text_container annot_kind (fun k Hk => Hk)), H2, Hb.
 Qed.
-(* the SubRip dispatch meets nothing it would drop *)
-Definition srt_sees_all (regions : list elem) : bool := regions_shape regions && forallb srt_block_ok (body_children regions).
+(* the dispatch meets nothing it would drop (and, SubRip, no "<" in the text) *)
+Definition sees_all (lt : bool) (regions : list elem) : bool := regions_shape regions && forallb (wblock_ok lt) (body_children regions).
+Definition srt_sees_all : list elem -> bool := sees_all true.
+Definition vtt_sees_all : list elem -> bool := sees_all false.
 
 Theorem srt_add_isd_spec fmt b en regions n cs n' :
-  srt_add_isd fmt b en regions n = (cs, n') -> block_spec b en (srt_sees_all regions) (flat_map leaves_text regions) cs.
+  srt_add_isd fmt b en regions n = (cs, n') -> block_spec srt_blank b en (srt_sees_all regions) (flat_map base_text regions) cs.
 Proof.
   unfold srt_add_isd. intros H.
   destruct (srt_blocks_spec fmt b en (body_children regions)
               (proj2 (Forall_forall _ _) (fun e _ => srt_block_spec fmt b en e)) _ _ _ H) as [A1 A2].
-  split; [exact A1|]. intros Hok. unfold srt_sees_all in Hok. apply andb_true_iff in Hok as [O1 O2].
+  split; [exact A1|]. intros Hok. unfold srt_sees_all, sees_all in Hok. apply andb_true_iff in Hok as [O1 O2].
   rewrite (A2 O2), (body_children_text regions O1). reflexivity.
 Qed.
 
 (* ---- WebVTT: one snapshot ---------------------------------------------------------------------------------------------- *)
-(* what process_p is handed: its inline children must be all there is *)
-Definition vtt_p_ok (p : elem) : bool := container p && forallb inline_ok (echildren p).
-Definition vtt_region_ok (r : elem) : bool :=
-  container r && forallb (fun b => container b && forallb (fun dv => container dv && forallb vtt_p_ok (echildren dv)) (echildren b)) (echildren r).
-Definition vtt_sees_all (regions : list elem) : bool := forallb vtt_region_ok regions.
-
 Lemma vtt_process_p_spec cfg ra b en p st cs st' :
-  vtt_process_p cfg ra b en p st = Ok (cs, st') -> block_spec b en (vtt_p_ok p) (leaves_text p) cs.
+  vtt_process_p cfg ra b en p st = Ok (cs, st') -> block_spec vtt_blank b en (forallb inline_ok (echildren p)) (flat_map base_text (echildren p)) cs.
 Proof.
   unfold vtt_process_p. intros H.
   destruct (if line_position cfg then bind (line_setting ra) (fun x => Ok (Some x)) else Ok None) as [line|]; [|discriminate].
   cbn [bind] in H. destruct (vtt_inlines (echildren p) (v_css st)) as [items css] eqn:Ei.
   set (c := mkCue (if cue_id cfg then Some (v_counter st + 1) else None) b en items line
                   (if text_align cfg then textalign_setting (eattrs p) else None)) in H.
-  assert (Hc : vtt_p_ok p = true -> visc (cue_chars c) = visc (leaves_text p)).
-  { intros Hok. unfold vtt_p_ok in Hok. apply andb_true_iff in Hok as [O1 O2]. unfold cue_chars, c. cbn [c_items].
-    pose proof (vtt_inlines_text (echildren p) (v_css st) O2) as G. rewrite Ei in G. cbn [fst] in G. rewrite G.
-    rewrite (leaves_text_container p O1). reflexivity. }
-  destruct (only_whitespace (cue_text esc_vtt c)) eqn:Ew; injection H as <- <-.
-  - split; [constructor|]. intros Hok. rewrite <- (Hc Hok). symmetry. apply (blank_cue esc_vtt c esc_vtt_keeps Ew).
-  - split; [constructor; [split; reflexivity | constructor]|]. intros Hok. cbn [flat_map]. rewrite app_nil_r. apply Hc, Hok.
+  assert (Hi : items_ok vtt_tag_ok (c_items c)).
+  { pose proof (vtt_inlines_items (echildren p) (v_css st)) as G. rewrite Ei in G. exact G. }
+  assert (Hc : forallb inline_ok (echildren p) = true -> visc (cue_chars c) = visc (flat_map base_text (echildren p))).
+  { intros Hok. unfold cue_chars, c. cbn [c_items].
+    pose proof (vtt_inlines_text (echildren p) (v_css st) Hok) as G. rewrite Ei in G. exact G. }
+  destruct (vtt_blank c) eqn:Ew; injection H as <- <-.
+  - split; [constructor|]. intros Hok. rewrite <- (Hc Hok). symmetry. apply only_whitespace_visc. rewrite <- (vtt_blank_exact c Hi). exact Ew.
+  - split.
+    + constructor; [|constructor]. split; [reflexivity|]. split; [reflexivity|]. split; [exact Ew|].
+      unfold nonblank. rewrite <- (vtt_blank_exact c Hi). exact Ew.
+    + intros Hok. cbn [flat_map]. rewrite app_nil_r. apply Hc, Hok.
 Qed.
-Lemma vtt_process_ps_spec cfg ra b en : forall ps st cs st',
-  vtt_process_ps cfg ra b en ps st = Ok (cs, st') -> block_spec b en (forallb vtt_p_ok ps) (flat_map leaves_text ps) cs.
+Lemma vtt_block_node cfg ra b en a cs st :
+  vtt_block cfg ra b en (Elem a cs) st =
+  match e_kind a with
+  | KDiv => vtt_blocks cfg ra b en cs st
+  | KP => vtt_process_p cfg ra b en (Elem a cs) st
+  | _ => Ok ([], st)
+  end.
 Proof.
-  induction ps as [|p ps IH]; intros st cs st' H; cbn [vtt_process_ps] in H.
+  cbn [vtt_block]. destruct (e_kind a); try reflexivity.
+  revert st. induction cs as [|c cs IH]; intros st; [reflexivity|]. cbn [vtt_blocks].
+  destruct (vtt_block cfg ra b en c st) as [r1|]; [|reflexivity]. cbn [bind]. rewrite IH. reflexivity.
+Qed.
+Lemma vtt_blocks_spec cfg ra b en : forall l,
+  Forall (fun e => forall st cs st', vtt_block cfg ra b en e st = Ok (cs, st') -> block_spec vtt_blank b en (vtt_block_ok e) (base_text e) cs) l ->
+  forall st cs st', vtt_blocks cfg ra b en l st = Ok (cs, st') -> block_spec vtt_blank b en (forallb vtt_block_ok l) (flat_map base_text l) cs.
+Proof.
+  induction l as [|e l IH]; intros Hl st cs st' H; cbn [vtt_blocks] in H.
   - injection H as <- <-. split; [constructor | reflexivity].
-  - destruct (vtt_process_p cfg ra b en p st) as [[x s1]|] eqn:Ep; [|discriminate]. cbn [bind snd fst] in H.
-    destruct (vtt_process_ps cfg ra b en ps s1) as [[y s2]|] eqn:Eps; [|discriminate]. cbn [bind snd fst] in H. injection H as <- <-.
-    destruct (vtt_process_p_spec _ _ _ _ _ _ _ _ Ep) as [A1 A2]. destruct (IH _ _ _ Eps) as [B1 B2].
+  - inversion Hl as [|? ? He Hl']; subst.
+    destruct (vtt_block cfg ra b en e st) as [[x s1]|] eqn:Ex; [|discriminate]. cbn [bind snd fst] in H.
+    destruct (vtt_blocks cfg ra b en l s1) as [[y s2]|] eqn:Ey; [|discriminate]. cbn [bind snd fst] in H. injection H as <- <-.
+    destruct (He _ _ _ Ex) as [A1 A2]. destruct (IH Hl' _ _ _ Ey) as [B1 B2].
     split; [apply cues_at_app; assumption|]. cbn [forallb flat_map]. intros Hok. apply andb_true_iff in Hok as [O1 O2].
     rewrite flat_map_app, !visc_app, (A2 O1), (B2 O2). reflexivity.
 Qed.
-Lemma vtt_region_text r : vtt_region_ok r = true ->
-  forallb vtt_p_ok (flat_map echildren (flat_map echildren (echildren r))) = true /\
-  flat_map leaves_text (flat_map echildren (flat_map echildren (echildren r))) = leaves_text r.
+Theorem vtt_block_spec cfg ra b en : forall e st cs st',
+  vtt_block cfg ra b en e st = Ok (cs, st') -> block_spec vtt_blank b en (vtt_block_ok e) (base_text e) cs.
 Proof.
-  unfold vtt_region_ok. intros H. apply andb_true_iff in H as [Hr Hb]. rewrite forallb_forall in Hb. split.
-  - apply forallb_forall. intros p Hp. apply in_flat_map in Hp as (dv & Hdv & Hp). apply in_flat_map in Hdv as (bd & Hbd & Hdv).
-    specialize (Hb bd Hbd). apply andb_true_iff in Hb as [_ Hb]. rewrite forallb_forall in Hb. specialize (Hb dv Hdv).
-    apply andb_true_iff in Hb as [_ Hb]. rewrite forallb_forall in Hb. apply Hb, Hp.
-  - rewrite (leaves_text_container r Hr). do 2 rewrite flat_map_flat_map. apply flat_map_ext_in. intros bd Hbd.
-    specialize (Hb bd Hbd). apply andb_true_iff in Hb as [Hc Hb]. rewrite forallb_forall in Hb.
-    rewrite (leaves_text_container bd Hc). apply flat_map_ext_in. intros dv Hdv.
-    specialize (Hb dv Hdv). apply andb_true_iff in Hb as [Hd _]. symmetry. apply leaves_text_container, Hd.
+  induction e as [a cs0 IH] using elem_ind2. intros st cs st' H. rewrite vtt_block_node in H. unfold vtt_block_ok. rewrite wblock_ok_node, base_text_node.
+  destruct (e_kind a) eqn:Ek.
+  all: try (injection H as <- <-; split; [constructor|]; intros Hok; try (rewrite base_text_node, Ek in Hok); apply is_nil_eq in Hok; try rewrite Hok; reflexivity).
+  - (* div *) exact (vtt_blocks_spec cfg ra b en cs0 IH _ _ _ H).
+  - (* p *) destruct (vtt_process_p_spec _ _ _ _ _ _ _ _ H) as [A1 A2]. cbn [echildren] in *. split; [exact A1|].
+    intros Hok. cbn [negb orb] in Hok. rewrite andb_true_r in Hok. exact (A2 Hok).
 Qed.
 Theorem vtt_regions_spec cfg b en : forall regions st cs st',
-  vtt_regions cfg b en regions st = Ok (cs, st') -> block_spec b en (vtt_sees_all regions) (flat_map leaves_text regions) cs.
+  vtt_regions cfg b en regions st = Ok (cs, st') ->
+  block_spec vtt_blank b en (forallb vtt_block_ok (body_children regions)) (flat_map base_text (body_children regions)) cs.
 Proof.
   induction regions as [|r regions IH]; intros st cs st' H; cbn [vtt_regions] in H.
   - injection H as <- <-. split; [constructor | reflexivity].
-  - cbv zeta in H.
-    destruct (vtt_process_ps cfg (eattrs r) b en (flat_map echildren (flat_map echildren (echildren r))) st) as [[x s1]|] eqn:Ep; [|discriminate].
+  - destruct (vtt_blocks cfg (eattrs r) b en (flat_map echildren (echildren r)) st) as [[x s1]|] eqn:Ep; [|discriminate].
     cbn [bind snd fst] in H. destruct (vtt_regions cfg b en regions s1) as [[y s2]|] eqn:Er; [|discriminate].
     cbn [bind snd fst] in H. injection H as <- <-.
-    destruct (vtt_process_ps_spec _ _ _ _ _ _ _ _ Ep) as [A1 A2]. destruct (IH _ _ _ Er) as [B1 B2].
-    split; [apply cues_at_app; assumption|]. unfold vtt_sees_all. cbn [forallb flat_map]. intros Hok. apply andb_true_iff in Hok as [O1 O2].
-    destruct (vtt_region_text r O1) as [P1 P2]. rewrite flat_map_app, !visc_app, (A2 P1), P2, (B2 O2). reflexivity.
+    destruct (vtt_blocks_spec cfg (eattrs r) b en _ (proj2 (Forall_forall _ _) (fun e _ => vtt_block_spec cfg (eattrs r) b en e)) _ _ _ Ep) as [A1 A2].
+    destruct (IH _ _ _ Er) as [B1 B2].
+    split; [apply cues_at_app; assumption|]. unfold body_children. cbn [flat_map]. rewrite forallb_app. intros Hok.
+    apply andb_true_iff in Hok as [O1 O2]. rewrite !flat_map_app, !visc_app, (A2 O1), (B2 O2). reflexivity.
+Qed.
+Theorem vtt_add_isd_spec cfg b en regions st cs st' :
+  vtt_regions cfg b en regions st = Ok (cs, st') -> block_spec vtt_blank b en (vtt_sees_all regions) (flat_map base_text regions) cs.
+Proof.
+  intros H. destruct (vtt_regions_spec cfg b en regions st cs st' H) as [A1 A2]. split; [exact A1|].
+  intros Hok. unfold vtt_sees_all, sees_all in Hok. apply andb_true_iff in Hok as [O1 O2].
+  rewrite (A2 O2), (body_children_text regions O1). reflexivity.
 Qed.
 
 (* ---- the loops over the snapshot sequence ---------------------------------------------------------------------------- *)
@@ -170,11 +216,11 @@ Lemma by_snapshot_impl (P Q' : Z -> option Z -> list elem -> list cue -> Prop) :
   (forall b en r cs, P b en r cs -> Q' b en r cs) -> forall seq cs, by_snapshot P seq cs -> by_snapshot Q' seq cs.
 Proof. intros H seq cs B. induction B; econstructor; eauto. Qed.
 
-Definition snapshot_spec (ok : list elem -> bool) (fs : list isd_filter) (b : Z) (en : option Z) (regions : list elem) (cs : list cue) : Prop :=
-  block_spec b en (ok (apply_filters fs regions)) (flat_map leaves_text (apply_filters fs regions)) cs.
+Definition snapshot_spec (blank : cue -> bool) (ok : list elem -> bool) (fs : list isd_filter) (b : Z) (en : option Z) (regions : list elem) (cs : list cue) : Prop :=
+  block_spec blank b en (ok (apply_filters fs regions)) (flat_map base_text (apply_filters fs regions)) cs.
 
 Theorem srt_loop_spec fmt : forall seq n cs,
-  srt_loop fmt seq n = Ok cs -> by_snapshot (snapshot_spec srt_sees_all srt_filters) seq cs.
+  srt_loop fmt seq n = Ok cs -> by_snapshot (snapshot_spec srt_blank srt_sees_all srt_filters) seq cs.
 Proof.
   induction seq as [|[t regions] seq IH]; intros n cs H; cbn [srt_loop] in H.
   - injection H as <-. constructor.
@@ -185,7 +231,7 @@ Proof.
     econstructor; [exact Eb | exact Een | | exact (IH _ _ Er)]. exact (srt_add_isd_spec _ _ _ _ _ _ _ Ex).
 Qed.
 Theorem vtt_loop_spec cfg fs : forall seq st cs st',
-  vtt_loop cfg fs seq st = Ok (cs, st') -> by_snapshot (snapshot_spec vtt_sees_all fs) seq cs.
+  vtt_loop cfg fs seq st = Ok (cs, st') -> by_snapshot (snapshot_spec vtt_blank vtt_sees_all fs) seq cs.
 Proof.
   induction seq as [|[t regions] seq IH]; intros st cs st' H; cbn [vtt_loop] in H.
   - injection H as <- <-. constructor.
@@ -193,5 +239,5 @@ Proof.
     fold (next_time seq) in H. destruct (oq_ms (next_time seq)) as [en|] eqn:Een; [|discriminate]. cbn [bind] in H.
     destruct (vtt_regions cfg b en (apply_filters fs regions) st) as [[x s1]|] eqn:Ex; [|discriminate]. cbn [bind snd fst] in H.
     destruct (vtt_loop cfg fs seq s1) as [[rest s2]|] eqn:Er; [|discriminate]. cbn [bind snd fst] in H. injection H as <- <-.
-    econstructor; [exact Eb | exact Een | | exact (IH _ _ _ Er)]. exact (vtt_regions_spec _ _ _ _ _ _ _ Ex).
+    econstructor; [exact Eb | exact Een | | exact (IH _ _ _ Er)]. exact (vtt_add_isd_spec _ _ _ _ _ _ _ Ex).
 Qed.
